@@ -59,8 +59,10 @@ int vnaproperty_import_yaml_from_file(vnaproperty_t **rootptr, FILE *fp,
 	_vnaproperty_yaml_error(&vyml, VNAERR_SYNTAX, "%s (line %ld) error: %s",
 		vyml.vyml_filename, (long)parser.problem_mark.line + 1,
 		parser.problem);
+	yaml_parser_delete(&parser);
 	goto error;
     }
+    yaml_parser_delete(&parser);
     delete_document = true;
     vyml.vyml_document = &document;
     if ((root = yaml_document_get_root_node(&document)) == NULL) {
